@@ -215,7 +215,7 @@ B("C09", "dirs.sort() removed", REG, "        dirs.sort()  # visit sub-directori
 B("C09", "os.listdir replaces the sorted walk", REG, "    for subdir, dirs, files in os.walk(directory):\n        dirs.sort()  # visit sub-directories in a reproducible order\n        for file_name in sorted(files):\n", "    for subdir, files in [(directory, os.listdir(directory))]:\n        for file_name in files:\n", "R1-order-taint")
 B("C09", "module-level memo of a decoder", D + "chr.py", "@decoder\ndef find_chr(data: bytes) -> list[Node]:\n    \"\"\"Find and decode calls to the chr function\"\"\"\n    out = []\n", "_CACHE: dict = {}\n\n\n@decoder\ndef find_chr(data: bytes) -> list[Node]:\n    \"\"\"Find and decode calls to the chr function\"\"\"\n    if data in _CACHE:\n        return _CACHE[data]\n    out = []\n    _CACHE[data] = out\n", "R3-shared-writes")
 B("C09", "self.last_result in scan_node", MD, "        stack: list[Node] = []\n", "        stack: list[Node] = []\n        self.last_scanned = node\n", "R3-shared-writes")
-B("C09", "lru_cache on a decoder helper", D + "network.py", "def is_domain(domain: bytes) -> bool:", "@functools.lru_cache(maxsize=None)\ndef is_domain(domain: bytes) -> bool:", "R3-shared-writes", also=[dict(file=D + "network.py", old="import binascii\n", new="import binascii\nimport functools\n")])
+B("C09", "lru_cache on a node-building decoder helper", D + "network.py", "def parse_ip(ip: bytes) -> Node:", "@functools.lru_cache(maxsize=None)\ndef parse_ip(ip: bytes) -> Node:", "R3-shared-writes", also=[dict(file=D + "network.py", old="import binascii\n", new="import binascii\nimport functools\n")])
 B("C09", "random tie-break", MD, "        for hit in results:\n", "        random.shuffle(results)\n        for hit in results:\n", "R4-entropy", also=[dict(file=MD, old="from multidecoder.node import Node\n", new="import random\n\nfrom multidecoder.node import Node\n")])
 B("C09", "id() in sort key", MD, "key=lambda t: (t.start, -t.end),", "key=lambda t: (t.start, -t.end, id(t)),", "R")
 B("C09", "stack hoisted to self", MD, "        stack: list[Node] = []\n", "        self.stack = stack = []\n", "R3-shared-writes")
@@ -504,3 +504,51 @@ HEX_NEW = 'HEX_RE = rb"((?=[0-9]*[a-f])(?:[a-f0-9]{2}){10,}|(?:[A-F0-9]{2}){10,}
 B("C13", "lower-case alternative tried first without the letter test (D30)", HEXF, HEX_NEW, 'HEX_RE = rb"((?:[a-f0-9]{2}){10,}|(?:[A-F0-9]{2}){10,})"', "R3-acceptance")
 B("C13", "hex alternatives swapped (round-7 seed)", HEXF, HEX_NEW, 'HEX_RE = rb"((?:[A-F0-9]{2}){10,}|(?:[a-f0-9]{2}){10,})"', "R3-acceptance")
 N("C13", "upper-case alternative guarded symmetrically", HEXF, HEX_NEW, 'HEX_RE = rb"((?=[0-9]*[a-f])(?:[a-f0-9]{2}){10,}|(?=[0-9]*(?:[A-F]|[^0-9a-f]|$))(?:[A-F0-9]{2}){10,})"')
+
+# ------------------------------------------------------------------ rules added after the adversarial round 7 (seeds s57-s76)
+EQ_END = "            and self.children == other.children\n        )\n"
+LEN_DEF = EQ_END + "\n    def __len__(self) -> int:\n        return max(self.end - self.start, 0)\n"
+for _p, _e in (("C03", "R7-original"), ("C04", "R-original"), ("C05", "R-original"), ("C06", "R-original"), ("C08", "R1-fresh-recursive-scan")):
+    B(_p, "Node gains a span-length __len__ (seeds s60-s62)", NODE, EQ_END, LEN_DEF, _e)
+    N(_p, "Node gains __bool__ returning True", NODE, EQ_END, EQ_END + "\n    def __bool__(self) -> bool:\n        return True\n")
+B("C04", "Node gains __bool__ on the value", NODE, EQ_END, EQ_END + "\n    def __bool__(self) -> bool:\n        return bool(self.value)\n", "R-original")
+XT_LOOP = "        keys = guess_keys(text, c, known_key_length)\n        for key in keys:\n            key_char_used[key] = c\n            if key not in probable_keys:\n                probable_keys.append(key)\n"
+B("C09", "new keys taken from a dict-view difference (seed s65)", XT, XT_LOOP, "        keys = dict.fromkeys(guess_keys(text, c, known_key_length), c)\n        probable_keys.extend(keys.keys() - key_char_used.keys())\n        key_char_used.update(keys)\n", "R1-order-taint")
+N("C09", "new keys filtered in order through a comprehension", XT, XT_LOOP, "        keys = dict.fromkeys(guess_keys(text, c, known_key_length), c)\n        probable_keys.extend([key for key in keys if key not in key_char_used])\n        key_char_used.update(keys)\n")
+DQ_OLD = "DOUBLE_QUOTE_STRING_RE = rb'\"(?:[^\"`\\\\]*(?:\"\"|`.|\\\\[^\"]|\\\\\"\"?))*[^\"`\\\\]*\"'"
+B("C01", "escaped backslash added as an overlapping alternative (seed s57)", CONC, DQ_OLD, "DOUBLE_QUOTE_STRING_RE = rb'\"(?:[^\"`\\\\]*(?:\"\"|`.|\\\\\\\\|\\\\[^\"]|\\\\\"\"?))*[^\"`\\\\]*\"'", "R5-regex-backtracking")
+N("C01", "escaped backslash as a disjoint alternative", CONC, DQ_OLD, "DOUBLE_QUOTE_STRING_RE = rb'\"(?:[^\"`\\\\]*(?:\"\"|`.|\\\\\\\\|\\\\[^\"\\\\]|\\\\\"\"?))*[^\"`\\\\]*\"'")
+B("C01", "single-quote string with overlapping alternatives", CONC, "SINGLE_QUOTE_STRING_RE = rb\"'(?:[^']*'')*[^']*'\"", "SINGLE_QUOTE_STRING_RE = rb\"'(?:(?:[^']|[a-z])*'')*[^']*'\"", "R5-regex-backtracking")
+PCT_OLD = '        byte = binascii.unhexlify(match.group(1))\n        if b"A" <= byte <= b"Z" or b"a" <= byte <= b"z" or b"0" <= byte <= b"9" or byte in (b"-", b".", b"_", b"~"):\n            return byte\n        return match.group(0).upper()\n'
+PCT_S67 = '        char = chr(int(match.group(1), 16))\n        if char.isalnum() or char in "-._~":\n            return char.encode("latin-1")\n        return match.group(0).upper()\n'
+for _p, _e in (("C10", "R4-percent"), ("C11", "via-C10.R4-percent")):
+    B(_p, "unreserved test through str.isalnum (seed s67)", NET, PCT_OLD, PCT_S67, _e)
+    N(_p, "unreserved test through bytes.isalnum", NET, PCT_OLD, '        byte = bytes.fromhex(match.group(1).decode())\n        if byte.isalnum() or byte in b"-._~":\n            return byte\n        return match.group(0).upper()\n')
+    N(_p, "unreserved test on the code point, ASCII only", NET, PCT_OLD, '        code = int(match.group(1), 16)\n        char = chr(code)\n        if code < 128 and (char.isalnum() or char in "-._~"):\n            return bytes([code])\n        return match[0].upper()\n')
+    B(_p, "tilde not treated as unreserved", NET, PCT_OLD, PCT_OLD.replace(', b"~")', ")"), _e)
+V6_OLD = "        address = IPv6Address(socket.inet_pton(socket.AF_INET6, ip.decode()))\n    except (OSError, AddressValueError, UnicodeDecodeError) as ex:"
+B("C12", "IPv6 host parsed from text, scoped addresses accepted (seed s68)", NET, V6_OLD, "        address = IPv6Address(ip.decode())\n    except (AddressValueError, UnicodeDecodeError) as ex:", "via-C10.R1-validator-dominance")
+XH = "src/multidecoder/xor_helper.py"
+B("C20", "xor child appended without its parent (seed s76)", XH, '            end=len(data),\n            parent=node,\n', '            end=len(data),\n', "via-C03.R3-pairing")
+CONC_OLD = "@decoder\ndef find_concat(data: bytes) -> list[Node]:"
+for _p, _e in (("C15", "R5-fresh-hits"), ("C03", "R8-fresh-nodes")):
+    B(_p, "find_concat memoised under the decoder marker (seed s71)", CONC, "import regex as re\n\nfrom multidecoder.node import Node", "import functools\n\nimport regex as re\n\nfrom multidecoder.node import Node", _e,
+      also=[dict(file=CONC, old=CONC_OLD, new="@decoder\n@functools.lru_cache(maxsize=32)\ndef find_concat(data: bytes) -> list[Node]:")])
+FUT = "from __future__ import annotations\n"
+FUT_FT = FUT + "\nimport functools\n"
+for _p, _f, _old in (("C10", NET, "def parse_ip(ip: bytes) -> Node:"), ("C11", NET, "def match_to_hit("), ("C12", NET, "def parse_url(url_text: bytes) -> list[Node]:"),
+                     ("C13", D + "base64.py", "def find_base64(data: bytes) -> list[Node]:"), ("C14", XMLF, "def find_xml_hex(data: bytes) -> list[Node]:"),
+                     ("C16", SH, "def get_cmd_command(cmd: bytes) -> bytes:")):
+    pass
+MEMO = [("C10", NET, "def parse_ip(ip: bytes) -> Node:"), ("C12", NET, "def parse_url(url_text: bytes) -> list[Node]:"), ("C11", NET, "def parse_ipv6(ip: bytes) -> Node:"),
+        ("C13", D + "base64.py", "def find_base64(data: bytes) -> list[Node]:"), ("C14", XMLF, "def find_xml_hex(data: bytes) -> list[Node]:"),
+        ("C16", SH, "def find_cmd_strings(data: bytes) -> list[Node]:"), ("C17", KW, "def find_keywords(")]
+for _p, _f, _old in MEMO:
+    B(_p, "node-building function on the decoder path memoised", _f, _old, "@functools.lru_cache(maxsize=None)\n" + _old, "R0-fresh-hits", also=[dict(file=_f, old=FUT, new=FUT_FT)])
+PURE = [("C10", NET, "def is_domain(domain: bytes) -> bool:"), ("C11", NET, "def is_domain(domain: bytes) -> bool:"), ("C03", NET, "def is_domain(domain: bytes) -> bool:"),
+        ("C08", NET, "def is_domain(domain: bytes) -> bool:"), ("C09", NET, "def is_domain(domain: bytes) -> bool:"), ("C01", NET, "def is_domain(domain: bytes) -> bool:"),
+        ("C14", XMLF, "def unescape_xml(data: bytes) -> bytes:"), ("C16", SH, "def strip_carets(cmd: bytes) -> bytes:"), ("C01", SH, "def strip_carets(cmd: bytes) -> bytes:")]
+for _p, _f, _old in PURE:
+    N(_p, "pure bytes helper memoised", _f, _old, "@functools.lru_cache(maxsize=4096)\n" + _old, also=[dict(file=_f, old=FUT, new=FUT_FT)])
+B("C01", "memoised function takes a Node", "src/multidecoder/xor_helper.py", "def apply_xor_key(", "@functools.lru_cache(maxsize=16)\ndef apply_xor_key(", "R1-exception-escape",
+  also=[dict(file="src/multidecoder/xor_helper.py", old="import regex as re\n", new="import functools\n\nimport regex as re\n")])
